@@ -27,7 +27,9 @@ EXPLANATION = (
     "get_excitations are the six wave_data keys multislater reads, in the documented order; read_dets "
     "reads int ndets, int norbs, {double coeff, norbs chars} with read sizes matching the struct formats "
     "and maps a/b/2 to up/down/both. SIB-2: restricted and unrestricted multislater overlaps agree for "
-    "equal spin blocks (see C01)."
+    "equal spin blocks (see C01). "
+    "PAIR-1 (parity): the occupation segment counted for each move is the running occupation the loop "
+    "updates, which is a private copy of the reference. "
 )
 NOT_DECIDED = "parity/sign conventions as formulas, the zero-variance consequence for exact trials."
 TECHNIQUE = "static analysis: cross-module index-space (label vs rank) def-use rule, pairing rules, reader format table"
